@@ -87,3 +87,9 @@ Definition space_case (sp : tl_space) (n_data metric_size : nat) (obs_data : boo
   Bool.eqb (use_data_space sp n_data metric_size) obs_data.
 Definition trace_inv_case (sp : tl_space) (n_data metric_size : nat) (tolc : Q) (evs : list Q) (obs : Q) : bool :=
   close tolc (trace_inv_exact (use_data_space sp n_data metric_size) evs) obs.
+
+Definition trace_const_case (metric_size n_rel : nat) (obs : Q) : bool := Qeq_bool (trace_inv_const metric_size n_rel) obs.
+(* resumed from MORE eigenpairs than requested, in any order: lower_error and ELBO samples from the n largest *)
+Definition resume_over_case (n_rel metric_size n : nat) (logs_given : list Q) (hs : list Q) (tol : Q)
+           (lower_error : Q) (samples : list Q) : bool :=
+  elbo_case n_rel metric_size (resume_select n logs_given) hs tol lower_error samples.
